@@ -71,6 +71,16 @@ def project_iter(line):
         return 'callback-panic'
     return _re.sub(r'#\d+', '', _re.sub(r'\{[^{}]*\}', '', line))
 
+def project_coll(line):
+    """property-level part of a coll answer (cmd/coll): the values every call / traversal returned (incl. panics), the shared
+    backing table after the call (T=...) and the denotation (den=...).  The order of callback events and the pull counters
+    (# id=n) are compared too (the model mirrors the code statement by statement), but a difference ONLY there is a
+    correspondence break, not a failing input of C01."""
+    parts = line.split(' || ')
+    vals = tuple(p.split(' | ')[0] for p in parts)
+    t = _re.search(r' T=\[[^\]]*\]', line)
+    return (vals, t.group(0) if t else '')
+
 # the thorough sizes below finish in 5-30 s on 16 cores; the thorough tier multiplies them (a few minutes per check)
 THOROUGH_SCALE = int(os.environ.get('VERIF_THOROUGH_SCALE', '4'))
 
@@ -78,6 +88,15 @@ def H(cmd, oracle, quick, thorough, **kw):
     d = dict(cmd=cmd, oracle=oracle, n=dict(quick=quick, thorough=thorough * (1 if cmd == 'gombokrun' else THOROUGH_SCALE)))
     d.update(kw)
     return d
+
+
+def TRANSX_H(prop, only=None):
+    """work package TRANS: remaining transformer functions / hand-written Option, Try, Either, StateT functions (cmd/transx, oracle_transx)"""
+    extra = ['-prop', prop] + (['-only', only] if only else [])
+    return H('transx', 'oracle_transx', 20000, 1000000, spec_level=True,
+             nontrivial=lambda op, impl: op.count('(') >= 2, extra=dict(quick=extra, thorough=extra))
+
+COLL_H = H('coll', 'oracle_coll', 4000, 400000, spec_level=True, project=project_coll)
 
 MONAD_H = [H('monad_' + p, 'oracle_monad', 3000, 150000, oracle_args=[p], spec_level=True) for p in ('try', 'option', 'either', 'statet')]
 TRYOPT_H = H('tryopt', 'oracle_tryopt', 4000, 200000, spec_level=True, extra=dict(quick=['-prop', 'C01'], thorough=['-prop', 'C01']))
@@ -87,30 +106,40 @@ ARITY_H = H('arity', 'oracle_arity', 8000, 400000, spec_level=True, nontrivial=l
 
 CHECKS = {
     'C01': dict(
-        spec=['FpVerif.Spec.C01', 'FpVerif.Spec.C01Inst', 'FpVerif.Spec.C01T', 'FpVerif.Spec.C16', 'FpVerif.Spec.C01Fn', 'FpVerif.Spec.C17'],
+        spec=['FpVerif.Spec.C01', 'FpVerif.Spec.C01Inst', 'FpVerif.Spec.C01T', 'FpVerif.Spec.C01TExt', 'FpVerif.Spec.C01Coll', 'FpVerif.Spec.C16', 'FpVerif.Spec.C01Fn', 'FpVerif.Spec.C17'],
         harnesses=MONAD_H + [TRYOPT_H, ARITY_H, H('iter', 'oracle_iter', 4000, 400000, spec_level=True, project=project_iter, extra=dict(quick=['-prop', 'C12'], thorough=['-prop', 'C12'])),
                              H('eval', 'oracle_eval', 2000, 100000, spec_level=True, extra=dict(quick=['-deep', '20000'], thorough=['-deep', '200000'])),
                              # the function monads fn0 / fn1 (reader monad over the effect monad)
                              H('fn', 'oracle_fn', 3000, 150000, spec_level=True),
                              # hand-written StateT core incl. FoldM / Concat; every fourth program is run TWICE (a StateT is a value)
-                             H('statet', 'oracle_statet', 3000, 100000, spec_level=True)],
+                             H('statet', 'oracle_statet', 3000, 100000, spec_level=True),
+                             TRANSX_H('C01'), COLL_H],
         level='proof',
-        modelled='X_monad.go + X_traverse.go of option/try/either/statet (one generic model of the generator template, '
+        modelled='Collection monads seq / iterator / list: FlatMap+unit laws and every derived combinator (Ap, Map2, Flatten, Lift, LiftM, Compose, ComposePure, FilterMap, Concat, Flap, Flap2, '
+                 'FlapMap, Method1, Method2) in Model/CollMonad.lean (seq, iterator machines with ONE shared one-shot iterator), Model/CollList.lean (lazy list heap with function / list elements), '
+                 'Spec/C01Coll.lean (95 theorems incl. lx_eval_den), coll harness (views of a shared backing table, returned functions applied twice). Remaining transformer functions (Append/Concat/Get/IsEmpty/MakeString/NonEmpty/Scan SeqT, OrZero/OrPtr OptionT), try.TraverseOption, try/option.FoldRight, '
+                 'option.ConstNone/Of/Ptr/String/NonZero/NonEmptySlice/ComposePure/FlatPtr/Deref/Pure0/Pure1, fp.Option.All/Foreach/Unapply/OrZero/OrPtr/Ptr, fp.Try.All/OrZero, '
+                 'either.NotRight/Foreach: Model/TryOptExt.lean, Spec/C01TExt.lean (transformT_def: XSeqT(t, args) = Map/FlatMap over the Try of the Seq operation, for every t incl. the zero Try), transx harness. '
+                 'X_monad.go + X_traverse.go of option/try/either/statet (one generic model of the generator template, '
                  'instantiated four times; every arity through operand lists); FlatMap/Pure/FoldM and the hand-written cores of '
                  'try_op.go, option_op.go, either_op.go; methods of fp.Try/fp.Option/fp.Either. Iterator/List monads: C12 harness; lazy.Eval monad (lazy.Map/FlatMap/Map2, monad laws and faithfulness theorems of Spec/C16): eval harness. '
                  'MonadChainN/ApplicativeFunctorN builders: model and theorems in Spec/C14 (chain_def, applicative_def), exercised here through the arity harness. '
                  'try.OptionT / try.SeqT transformer functions (try_optiont.go, try_seqt.go: core six + the Transform family) in Model/TryOpt.lean (TryT), Spec/C01T. '
                  'Iterator and lazy List monads through the C12 harness. fn0/fn1 (Pure, Map, FlatMap, Flatten, Get, WithArg; reader monad over the effect monad, two-stage '
                  'Flatten m(u)(u)), MonadOps/Lawful instance of the reader carrier: Model/FnMonad.lean, Spec/C01Fn.lean, fn harness.',
-        assumptions=['Go evaluates call arguments before the call and left to right; every M-typed argument of the generated family is a '
+        assumptions=['option.Of: "the interface is nil" and "the dynamic value is a nil chan/func/map/pointer/slice" are parameter predicates of the model '
+                     '(instantiated by the oracle on 14 argument shapes); pointers are modelled as Option (nil / target value), pointer identity is not; '
+                     'fmt.Sprint inside Seq.MakeString is a parameter of the model',
+                     'Go evaluates call arguments before the call and left to right; every M-typed argument of the generated family is a '
                      'variable or a nested call used exactly once (checked by the correspondence, not proved)',
                      'iterators handed to FoldM/Traverse are viewed as the finite list they yield (pull behaviour: C12/C20)'],
     ),
     'C02': dict(
-        spec=['FpVerif.Spec.C02'],
+        spec=['FpVerif.Spec.C02', 'FpVerif.Spec.C02Ext'],
         harnesses=MONAD_H + [TRYOPT_C02_H, ARITY_H, H('statet', 'oracle_statet', 3000, 100000, spec_level=True),
                              # future.Apply/Apply2 panic capture, future builders' suppliers after a failure
-                             H('future', 'oracle_future', 2000, 100000, spec_level=True, project=project_future)],
+                             H('future', 'oracle_future', 2000, 100000, spec_level=True, project=project_future),
+                             TRANSX_H('C02')],
         level='proof',
         modelled='as C01; in addition try.Of/Call/CallUnit (recover -> tryCatch), Recover*/Or*/OrElse* of fp.Try/fp.Option/fp.StateT. '
                  'future.Apply/Apply2: C06.',
@@ -220,15 +249,25 @@ CHECKS = {
                      'user callbacks do not panic inside tasks (a panic in a callback goroutine terminates the program; only Apply/Apply2 recover)'],
     ),
     'C12': dict(
-        spec=['FpVerif.Spec.C12', 'FpVerif.Spec.C12List'],
+        spec=['FpVerif.Spec.C12', 'FpVerif.Spec.C12List', 'FpVerif.Spec.C12Ext', 'FpVerif.Spec.C01Coll'],
         harnesses=[H('iter', 'oracle_iter', 8000, 800000, spec_level=True, project=project_iter,
-                     extra={'quick': ['-prop', 'C12'], 'thorough': ['-prop', 'C12']})],
+                     extra={'quick': ['-prop', 'C12'], 'thorough': ['-prop', 'C12']}),
+                   # conversion / access functions of fp.Seq, lazy fp.List, xtr; thin iterator wrappers (direct)
+                   H('listx', 'oracle_listx', 3000, 300000, spec_level=True),
+                   # derived combinators of the iterator / list monads (re-use the C12 machines and lemmas)
+                   COLL_H],
         level='proof',
-        modelled='iterator.go (all methods), iterator/iterator_op.go (sources, Map, FilterMap, FlatMap, Zip*, Scan, '
+        modelled='LISTX (Model/ListX.lean, Spec/C12Ext.lean, harness listx): list.go + list/list_op.go Head/Tail/Unapply/Foreach/ToSeq of Nil, Cons, Seq, ListAdaptor, list.Recurrence1/2 '
+                 '(own memo heap incl. sync.Once after a panic), ReverseSlice, FromPtr, FromMap/FromMapKey/FromMapValue, ToMap, ToGoMap, ToSet, ToGoSet, FoldFuture; seq.go Size, IsEmpty, NonEmpty, Get, '
+                 'Head, Init, Last, Tail, Foreach, SliceCasting; seq/seq_op.go Size/Head/Init/Tail/Last, FilterNil, FromMap/FromMapKeys/FromMapValues, FoldRight, FoldFuture; xtr.Head/Init/Last/Tail; '
+                 'iterator.go (all methods), iterator/iterator_op.go (sources, Map, FilterMap, FlatMap, Zip*, Scan, '
                  'Duplicate/Span/Partition, all folds, Reduce, Min/Max, GroupBy, Sort, ToSeq), seq.go IteratorOfSeq/Option, '
                  'MakePullIterator; list.go + list/list_op.go (memo cells in a heap: Map, FlatMap, FilterMap, Combine, Zip, '
                  'ZipWithIndex, Scan, GenerateFrom/Range, ReverseSeq, Collect/ToList, Fold*, Reduce, iterator.FromList)',
-        assumptions=['user callbacks are arbitrary logging, non-panicking Go functions in the theorems (panicking ones are '
+        assumptions=['FoldFuture (seq, list) is modelled at the level of the results of completed futures (fn returns an already completed future or one completed by a later task of the '
+                     'same executor; fn does not panic); Go maps / fp.Map / fp.Set in ToMap/ToSet/FromMap are association lists with last-write-wins insertion (the HAMT itself: C03/C04), '
+                     'enumeration order of a Go map is a parameter (theorems for every enumeration, answers compared sorted)',
+                     'user callbacks are arbitrary logging, non-panicking Go functions in the theorems (panicking ones are '
                      'still modelled and compared by the oracle)',
                      'lazy.Eval is modelled call-by-name (trampolining/stack depth not modelled); a FoldRight step forces '
                      'its lazy argument at most once',
@@ -309,12 +348,13 @@ CHECKS = {
     'C17': dict(
         # Spec.C17: the hand-written core (Get/Put/Modify/FlatMap/FoldM/Concat/Recover*); Spec.C01 + C01Inst: the generated
         # statet_monad.go family as the generic template instantiated at the (lawful) StateT operations
-        spec=['FpVerif.Spec.C17', 'FpVerif.Spec.C01', 'FpVerif.Spec.C01Inst'],
+        spec=['FpVerif.Spec.C17', 'FpVerif.Spec.C17Ext', 'FpVerif.Spec.C01', 'FpVerif.Spec.C01Inst'],
         harnesses=[H('statet', 'oracle_statet', 4000, 200000, spec_level=True),
                    # state threading / short-circuit of the generated statet_monad.go family (Ap, Map2, Zip, LiftA/LiftM, Sequence, Traverse ...)
-                   H('monad_statet', 'oracle_monad', 3000, 150000, oracle_args=['statet'], spec_level=True)],
+                   H('monad_statet', 'oracle_monad', 3000, 150000, oracle_args=['statet'], spec_level=True),
+                   TRANSX_H('C17', 'st.')],
         level='proof',
-        modelled='state.go (all StateT methods), statet/statet_op.go (all functions); state_monad.go/state_traverse.go via C01',
+        modelled='statet.Run/Merge/ApTry/ApOption: Model/StateTExt.lean, Spec/C17Ext.lean. state.go (all StateT methods), statet/statet_op.go (all functions); state_monad.go/state_traverse.go via C01',
         assumptions=['iterators handed to FoldM are viewed as the finite list they yield',
                      'user callbacks are arbitrary GoM computations (may log and panic)'],
     ),
@@ -339,8 +379,11 @@ CHECKS_TC = {
                      'ContraMap functions are pure (the theorems quantify over all functions)'],
     ),
     'C10': dict(
-        spec=['FpVerif.Spec.C10'],
-        harnesses=[H('tc', 'oracle_tc', 3000, 200000, extra=_only('ord'))],
+        spec=['FpVerif.Spec.C10', 'FpVerif.Spec.C10Ext'],
+        harnesses=[H('tc', 'oracle_tc', 3000, 200000, extra=_only('ord')),
+                   # SortSeqT / MinSeqT / MaxSeqT of try/try_seqt.go (Spec/C10Ext.lean); SortSeqT is only run with orders whose Eqv elements are indistinguishable
+                   # (sort.Sort is unstable); Min/Max answers rendered by the equivalence class of the result (C10 fixes "a least element", not which)
+                   TRANSX_H('C10', 'seqT.sort,seqT.min,seqT.max')],
         level='proof',
         modelled='typeclass.go (Ord, CompareFunc, LessFunc with all derived methods, LessGiven); ord/ord_op.go (FromCompare, New, '
                  'Time, Tuple1, Option, Seq, Slice, HNil, HCons, Given, GivenField, ContraMap, Ptr) + ord/tuple_gen.go; as.Ord; '
